@@ -27,6 +27,9 @@ Post ==
   /\ Check("termination flags", \A i \in 1..NW, a \in AG : out'[i][a].present => R(i, a).term = out'[i][a].term)
   /\ Check("truncation flags", \A i \in 1..NW, a \in AG : out'[i][a].present => R(i, a).trunc = out'[i][a].trunc)
   /\ Check("info", \A i \in 1..NW, a \in AG : out'[i][a].present => R(i, a).tick = out'[i][a].tick)
+  /\ Check("info keys that only some sub-environments report are present exactly where they were reported",
+           \* (the auto-reset wrapper hands out the info of its reset at an episode end; only its restart condition is demanded)
+           T.cfg.mode # "wrapper" => \A i \in 1..NW, a \in AG : out'[i][a].present => (R(i, a).aux = out'[i][a].aux /\ R(i, a).aux2 = out'[i][a].aux2))
 
 \* reset(seed = s) of the vector environment resets sub-environment i with seed s + i - 1 (a single environment with s itself)
 TReset == /\ Ev.op = "reset" /\ Reset /\ Post
